@@ -387,7 +387,16 @@ fn find_free_symbols_in_proc<'a>(
     env: &mut HashSet<&'a Cell>,
     free: &mut HashSet<&'a Cell>,
 ) -> Result<(), Error> {
-    if car.is_quote() || car.is_quasiquote() {
+    if car.is_quote() {
+        return Ok(());
+    }
+
+    // Only the unquoted expressions of a quasiquote template are evaluated,
+    // so only they can reference free symbols.
+    if car.is_quasiquote() {
+        if let Some(template) = cdr.car() {
+            find_free_symbols_in_quasiquote(template, 0, env, free)?;
+        }
         return Ok(());
     }
 
@@ -454,6 +463,42 @@ fn find_free_symbols_in_proc<'a>(
     }
 
     Ok(())
+}
+
+/// Find Free Symbols In Quasiquote
+///
+/// Walk a quasiquote template, collecting the free symbols of every
+/// expression that is unquoted at the outermost quasiquote level. This
+/// mirrors the depth tracking of the compiler's quasiquote.
+fn find_free_symbols_in_quasiquote<'a>(
+    cell: &'a Cell,
+    depth: usize,
+    env: &mut HashSet<&'a Cell>,
+    free: &mut HashSet<&'a Cell>,
+) -> Result<(), Error> {
+    match cell {
+        Cell::Pair(car, cdr) => {
+            if car.is_unquote() {
+                return match (depth, cdr.car()) {
+                    (0, Some(expr)) => find_free_symbols(expr, env, free),
+                    (0, None) => Ok(()),
+                    _ => find_free_symbols_in_quasiquote(cdr, depth - 1, env, free),
+                };
+            }
+            if car.is_quasiquote() {
+                return find_free_symbols_in_quasiquote(cdr, depth + 1, env, free);
+            }
+            find_free_symbols_in_quasiquote(car, depth, env, free)?;
+            find_free_symbols_in_quasiquote(cdr, depth, env, free)
+        }
+        Cell::Vector(vector) => {
+            for it in vector {
+                find_free_symbols_in_quasiquote(it, depth, env, free)?;
+            }
+            Ok(())
+        }
+        _ => Ok(()),
+    }
 }
 
 /// Interally defined symbols
